@@ -146,49 +146,69 @@ theorem stepFrom_childStep (top : Node) (c : Node) (pos : Nat) (pre : List Nat) 
   cases c <;> simp only [stepFrom, h, childStep, Step.pos] <;> simp only [childStep] at ht <;> rw [ht]
 
 /-- one generated step selects exactly the child it was generated for -/
-theorem stepFrom_child (cnt : Node → Node → Bool) (hcnt : ∀ c c', cnt c c' = (stepShape c).test c')
-    (top : Node) (pre : List Nat) (n c : Node) (i : Nat)
-    (h : descend top pre = some n) (hc : n.kids[i]? = some c) :
+theorem stepFrom_child (cnt : Node → Node → Bool) (top : Node) (pre : List Nat) (n c : Node) (i : Nat)
+    (h : descend top pre = some n) (hc : n.kids[i]? = some c) (hs : safeAt cnt n.kids c = true) :
     stepFrom top (childStep c (getChildPositionWith cnt n.kids i c)) ⟨pre, .self⟩ = [⟨pre ++ [i], .self⟩] := by
   rw [stepFrom_childStep top c _ pre n h]
   have hlen := lt_length_of_getElem? hc
   have hpos : getChildPositionWith cnt n.kids i c
       = ((n.kids.take i).filter (stepShape c).test).length + 1 := by
     unfold getChildPositionWith
-    rw [gcpLoop_eq cnt c n.kids i 0 hlen, take_succ_of_getElem? _ _ _ hc]
-    have : cnt c = (stepShape c).test := funext (hcnt c)
-    rw [this, List.filter_append]
+    rw [gcpLoop_eq cnt c n.kids i 0 hlen]
+    have hcongr : (n.kids.take (i + 1)).filter (cnt c) = (n.kids.take (i + 1)).filter (stepShape c).test := by
+      apply List.filter_congr
+      intro x hx
+      have hx' := List.mem_of_mem_take hx
+      simp only [safeAt, List.all_eq_true, beq_iff_eq] at hs
+      exact hs x hx'
+    rw [hcongr, take_succ_of_getElem? _ _ _ hc, List.filter_append]
     simp [test_self c]
   rw [hpos, nth1_idxWhere _ n.kids 0 i c hc (test_self c)]
   simp
 
-theorem evalFrom_pathToWith (cnt : Node → Node → Bool) (hcnt : ∀ c c', cnt c c' = (stepShape c).test c')
+theorem evalFrom_pathToWith (cnt : Node → Node → Bool)
     (top : Node) : ∀ (is : List Nat) (n : Node) (pre : List Nat) (steps : List Step),
-      descend top pre = some n → pathToWith cnt n is = some steps →
+      descend top pre = some n → pathSafe cnt n is = true → pathToWith cnt n is = some steps →
       evalFrom top [⟨pre, .self⟩] steps = [⟨pre ++ is, .self⟩] := by
   intro is
   induction is with
   | nil =>
-    intro n pre steps _ hp
+    intro n pre steps _ _ hp
     simp only [pathToWith, Option.some.injEq] at hp
     subst hp
     simp [evalFrom]
   | cons i is ih =>
-    intro n pre steps hd hp
+    intro n pre steps hd hs hp
     simp only [pathToWith] at hp
     cases hc : n.kids[i]? with
     | none => simp [hc] at hp
     | some c =>
       simp only [hc] at hp
+      simp only [pathSafe, hc, Bool.and_eq_true] at hs
       cases hr : pathToWith cnt c is with
       | none => simp [hr] at hp
       | some rest =>
         simp only [hr, Option.some.injEq] at hp
         subst hp
         simp only [evalFrom, List.flatMap_cons, List.flatMap_nil, List.append_nil]
-        rw [stepFrom_child cnt hcnt top pre n c i hd hc]
-        have := ih c (pre ++ [i]) rest (descend_snoc top pre i n c hd hc) hr
+        rw [stepFrom_child cnt top pre n c i hd hc hs.1]
+        have := ih c (pre ++ [i]) rest (descend_snoc top pre i n c hd hc) hs.2 hr
         rw [this, List.append_assoc]; rfl
+
+/-- the repaired counting agrees with the node test everywhere -/
+theorem pathSafe_of_agree (cnt : Node → Node → Bool) (hcnt : ∀ c c', cnt c c' = (stepShape c).test c') :
+    ∀ (is : List Nat) (n : Node), pathSafe cnt n is = true := by
+  intro is
+  induction is with
+  | nil => intro n; rfl
+  | cons i is ih =>
+    intro n
+    simp only [pathSafe]
+    cases n.kids[i]? with
+    | none => rfl
+    | some c =>
+      simp only [Bool.and_eq_true]
+      exact ⟨by simp [safeAt, hcnt], ih c⟩
 
 theorem evalFrom_append (top : Node) : ∀ (s1 s2 : List Step) (ctx : List Ref),
     evalFrom top ctx (s1 ++ s2) = evalFrom top (evalFrom top ctx s1) s2 := by
@@ -271,8 +291,8 @@ theorem stepFrom_ns (top : Node) (pre : List Nat) (n : Node) (j : Nat) (a : Stri
   rw [idxWhere_key (fun b : String × String => b.1) n.nss 0 j a (wf_nss n hw) ha]
   simp
 
-theorem evalSteps_pathOfWith (cnt : Node → Node → Bool) (hcnt : ∀ c c', cnt c c' = (stepShape c).test c')
-    (top : Node) (r : Ref) (steps : List Step) (hw : top.wf = true)
+theorem evalSteps_pathOfWith (cnt : Node → Node → Bool)
+    (top : Node) (r : Ref) (steps : List Step) (hw : top.wf = true) (hs : pathSafe cnt top r.path = true)
     (hp : pathOfWith cnt top r = some steps) : evalSteps top steps = [r] := by
   obtain ⟨path, sel⟩ := r
   unfold pathOfWith at hp
@@ -284,7 +304,7 @@ theorem evalSteps_pathOfWith (cnt : Node → Node → Bool) (hcnt : ∀ c c', cn
     | none => simp [hpt, hd] at hp
     | some n =>
       simp only [hpt, hd] at hp
-      have hwalk := evalFrom_pathToWith cnt hcnt top path top [] st rfl hpt
+      have hwalk := evalFrom_pathToWith cnt top path top [] st rfl hs hpt
       simp only [List.nil_append] at hwalk
       have hwn := wf_descend path top n hw hd
       cases sel with
@@ -348,5 +368,113 @@ theorem pathOfWith_isSome_iff (cnt : Node → Node → Bool) (top : Node) (r : R
 
 theorem pathOf_isSome_iff (top : Node) (r : Ref) : (pathOf top r).isSome ↔ Valid top r :=
   pathOfWith_isSome_iff sameKind top r
+
+/-! ### the generated path is the F&O path; Python shape of the recursion; fragments -/
+
+theorem getChildPosition_eq (kids : List Node) (i : Nat) (c : Node) (hc : kids[i]? = some c) :
+    getChildPosition kids i c = ((kids.take i).filter (stepShape c).test).length + 1 := by
+  unfold getChildPosition getChildPositionWith
+  rw [gcpLoop_eq sameKind c kids i 0 (lt_length_of_getElem? hc), take_succ_of_getElem? _ _ _ hc]
+  have : sameKind c = (stepShape c).test := funext (sameKind_eq_test c)
+  rw [this, List.filter_append]
+  simp [test_self c]
+
+theorem childStep_eq_withPos (c : Node) (p : Nat) : childStep c p = (stepShape c).withPos p := by
+  cases c <;> rfl
+
+theorem pathTo_eq_spec : ∀ (is : List Nat) (top : Node), pathTo top is = specPathTo top is := by
+  intro is
+  induction is with
+  | nil => intro top; rfl
+  | cons i is ih =>
+    intro top
+    simp only [pathTo, pathToWith, specPathTo]
+    cases hc : top.kids[i]? with
+    | none => rfl
+    | some c =>
+      have := ih c
+      simp only [pathTo] at this
+      simp only [this]
+      have hs : childStep c (getChildPositionWith sameKind top.kids i c) = specStep top.kids i c := by
+        have := getChildPosition_eq top.kids i c hc
+        unfold getChildPosition at this
+        rw [this, childStep_eq_withPos]; rfl
+      rw [hs]
+      cases specPathTo c is <;> rfl
+
+theorem pathOf_eq_spec (top : Node) (r : Ref) : pathOf top r = specPath top r := by
+  have := pathTo_eq_spec r.path top
+  simp only [pathTo] at this
+  simp only [pathOf, pathOfWith, specPath, this]
+  cases specPathTo top r.path <;> cases descend top r.path <;> rfl
+
+/-- the shape of the Python property: `f"{self.parent.path}/{step}"` -/
+theorem pathTo_snoc : ∀ (is : List Nat) (top n c : Node) (i : Nat) (st : List Step),
+    descend top is = some n → n.kids[i]? = some c → pathTo top is = some st →
+    pathTo top (is ++ [i]) = some (st ++ [childStep c (getChildPosition n.kids i c)]) := by
+  intro is
+  induction is with
+  | nil =>
+    intro top n c i st hd hc hp
+    simp only [descend, Option.some.injEq] at hd
+    subst hd
+    simp only [pathTo, pathToWith, Option.some.injEq] at hp
+    subst hp
+    simp [pathTo, pathToWith, hc, getChildPosition]
+  | cons j js ih =>
+    intro top n c i st hd hc hp
+    simp only [descend] at hd
+    simp only [pathTo, pathToWith] at hp
+    cases hj : top.kids[j]? with
+    | none => simp [hj] at hd
+    | some d =>
+      simp only [hj] at hd hp
+      cases hr : pathToWith sameKind d js with
+      | none => simp [hr] at hp
+      | some rest =>
+        simp only [hr, Option.some.injEq] at hp
+        subst hp
+        have := ih d n c i rest hd hc hr
+        simp only [pathTo] at this
+        simp [pathTo, pathToWith, hj, this]
+
+theorem getChildPosition_single (e : Node) : getChildPosition [e] 0 e = 1 := by
+  rw [getChildPosition_eq [e] 0 e rfl]; rfl
+
+/-- `fn:path` of a tree rooted at a parent-less element drops the step of the root element
+(`item.path[len(root_node.path):]`): the absolute path in the dummy document is the root
+element's own step followed by the relative path. -/
+theorem pathOf_dummy_doc (e : Node) (is : List Nat) (sel : Sel) :
+    pathOf (docNode [e]) ⟨0 :: is, sel⟩ = (pathOf e ⟨is, sel⟩).map (childStep e 1 :: ·) := by
+  simp only [pathOf, pathOfWith, pathToWith, descend, docNode, Node.kids, List.getElem?_cons_zero]
+  have h1 : getChildPositionWith sameKind [e] 0 e = 1 := getChildPosition_single e
+  rw [h1]
+  cases pathToWith sameKind e is with
+  | none => rfl
+  | some st =>
+    cases descend e is with
+    | none => rfl
+    | some n =>
+      cases sel with
+      | self => rfl
+      | attr j => simp only; cases n.attrs[j]? <;> rfl
+      | ns j => simp only; cases n.nss[j]? <;> rfl
+
+/-- for the node itself (no attribute / namespace selector) no well-formedness is needed -/
+theorem evalSteps_pathOfWith_self (cnt : Node → Node → Bool) (top : Node) (is : List Nat) (steps : List Step)
+    (hs : pathSafe cnt top is = true) (hp : pathOfWith cnt top ⟨is, .self⟩ = some steps) :
+    evalSteps top steps = [⟨is, .self⟩] := by
+  unfold pathOfWith at hp
+  simp only at hp
+  cases hpt : pathToWith cnt top is with
+  | none => simp [hpt] at hp
+  | some st =>
+    cases hd : descend top is with
+    | none => simp [hpt, hd] at hp
+    | some n =>
+      simp only [hpt, hd, Option.some.injEq] at hp
+      subst hp
+      have hwalk := evalFrom_pathToWith cnt top is top [] st rfl hs hpt
+      simpa [evalSteps] using hwalk
 
 end EPV.NodePath
